@@ -116,7 +116,9 @@ def check_trace(surfs, recs, scale_tol=1e-7):
         if s['shape'][0] == 'std' and all(math.isfinite(v) for v in prev[:6]):
             along = sum((a - b) * c for a, b, c in zip(rec[:3], prev[:3], prev[3:6]))
             if along < -1e-9 * size:
-                bad.append({'surface': si + 1, 'kind': 'behind-ray', 'shape': 'std',
+                kk = s['shape'][2]
+                a_coef = kk * d_in[2] ** 2 + d_in[0] ** 2 + d_in[1] ** 2 + d_in[2] ** 2
+                bad.append({'surface': si + 1, 'kind': 'behind-ray', 'shape': 'std', 'conic': kk, 'a_is_zero': bool(a_coef == 0.0),
                             'detail': f'recorded hit lies {-along:.3e} BEHIND the ray origin (no intersection on the half line, yet finite)'})
         # 2. unit outgoing direction
         nrm = math.sqrt(L * L + M * M + N * N)
@@ -341,11 +343,15 @@ def check_intensity(surfs, recs, w):
         if not math.isfinite(i):
             bad.append({'surface': si + 1, 'kind': 'intensity-nonfinite', 'detail': repr(i)})
             break
-        if i < -1e-15 or i > 1 + 1e-12:
-            bad.append({'surface': si + 1, 'kind': 'intensity-range', 'detail': repr(i)})
-        if i > prev[6] * (1 + 1e-12) + 1e-15:
-            bad.append({'surface': si + 1, 'kind': 'intensity-increase', 'detail': f'{prev[6]!r} -> {i!r}'})
         d = math.dist(rec[:3], prev[:3])
+        # a NEGATIVE propagation distance inside an absorbing medium (virtual propagation, crossing surfaces): the library
+        # attenuates with the signed distance, i.e. the intensity GROWS there (listed finding absorption-negative-distance)
+        backward = bool(s['k1'] > 0 and all(math.isfinite(v) for v in prev[3:6])
+                        and sum((a - b) * c for a, b, c in zip(rec[:3], prev[:3], prev[3:6])) < -1e-12 * (1 + d))
+        if i < -1e-15 or i > 1 + 1e-12:
+            bad.append({'surface': si + 1, 'kind': 'intensity-range', 'detail': repr(i), 'backward_in_absorber': backward})
+        if i > prev[6] * (1 + 1e-12) + 1e-15:
+            bad.append({'surface': si + 1, 'kind': 'intensity-increase', 'detail': f'{prev[6]!r} -> {i!r}', 'backward_in_absorber': backward})
         exp_i *= math.exp(-4 * math.pi * s['k1'] * d * 1e3 / w)
         p, _ = to_local(rec[:3], rec[3:6], s)
         if s['aper'] is not None:
@@ -361,7 +367,7 @@ def check_intensity(surfs, recs, w):
             exp_i *= s['coat'][1] if s['refl'] else s['coat'][0]
         if abs(i - exp_i) > 1e-9 * (1 + abs(exp_i)):
             bad.append({'surface': si + 1, 'kind': 'intensity-factor', 'detail': f'recorded {i!r}, expected {exp_i!r}',
-                        'clipped': clipped})
+                        'clipped': clipped, 'backward_in_absorber': backward})
             break
         prev = rec
     return bad
